@@ -402,6 +402,13 @@ func (s *SimKMS) AsymmetricSign(_ context.Context, req *kmspb.AsymmetricSignRequ
 			resp.Signature[s.R.Intn(len(sig), "sig-byte")] ^= 1 << s.R.Intn(8, "sig-bit")
 		case 2:
 			resp.SignatureCrc32C = wrapperspb.Int64(crc(sig) ^ (1 << s.R.Intn(64, "crc-bit")))
+		case 6:
+			// the optional checksum wrapper is missing altogether
+			resp.SignatureCrc32C = nil
+		case 7:
+			resp.SignatureCrc32C = nil
+			resp.Signature = append([]byte(nil), sig...)
+			resp.Signature[len(sig)/2] ^= 0x10
 		case 3:
 			resp.VerifiedDataCrc32C = false
 		case 4:
